@@ -98,6 +98,8 @@ def g_op(o):
 def g_out(r):
     if r is None:
         return "RUnit"
+    if isinstance(r, tuple):
+        return "RCount (-999)"        # the operation raised: never what the model answers
     if isinstance(r, int):
         return "RCount %d" % r
     return "RList %s" % g_hlist(r)
@@ -257,7 +259,12 @@ def run_history(loop, box, ops):
 
     async def go():
         for o in ops:
-            outs.append(await _apply(box.store, o))
+            try:
+                outs.append(await _apply(box.store, o))
+            except Exception as e:  # noqa: BLE001 - a store operation raising is an outcome to report
+                outs.append(("raised", "%s: %s" % (type(e).__name__, e)))
+                dumps.append(box.dump())
+                break
             dumps.append(box.dump())
     loop.run_until_complete(go())
     return outs, dumps
@@ -309,8 +316,13 @@ def monitor_history(backend, ops, outs, dumps, mx):
     fails = []
     last = {}            # handler index -> op index of its last update (recency of completion)
     for k, o in enumerate(ops):
+        if k >= len(outs):
+            break
         before, after, out = dumps[k], dumps[k + 1], outs[k]
         kind = o[0]
+        if isinstance(out, tuple):
+            fails.append(("C24/operation-raised", "%s: %r raised %s (store before: %r)" % (backend, o, out[1], before), k))
+            break
         if len(set(c[0] for c in after)) != len(after):
             fails.append(("C24/duplicate-handler-id", "%s: two rows with one handler_id after %r" % (backend, o), k))
         if kind == "query":
@@ -362,13 +374,14 @@ def monitor_history(backend, ops, outs, dumps, mx):
                 lost_live = [c for c in want if c not in after and not is_term(c)]
                 lost_done = [c for c in want if c not in after and is_term(c)]
                 extra = [c for c in after if c not in want]
-                if lost_live:
+                capped = backend == "memory" and mx is not None
+                if lost_live and capped:
                     key, why = "C24/non-terminal-handler-lost", "non-terminal handlers %r disappeared" % lost_live
-                elif lost_done:
+                elif lost_done and capped:
                     key, why = ("C24/recent-completion-evicted",
                                 "completed handlers %r are among the %s most recently completed but were evicted"
                                 % (lost_done, mx))
-                elif backend == "memory" and mx is not None and all(is_term(c) for c in extra) and is_term(new):
+                elif capped and extra and all(is_term(c) for c in extra) and is_term(new):
                     key, why = "C24/old-completion-kept", "completed handlers %r are beyond the %d most recent" % (extra, mx)
                 else:
                     key, why = "C24/upsert-not-exact", "store is %r, expected %r" % (sorted(after), sorted(want))
